@@ -383,6 +383,12 @@ fn build(tier: Tier) -> Vec<Scenario> {
     }
     // slow sources and timed batching: control elements still reach every replica in time
     out.extend(crate::props::timed::scenarios("C03", tier == Tier::Quick, "C03"));
+    // a connection inside a loop body: watermarks and ends of iteration reach every downstream
+    // replica in every round (event time starts over in each)
+    out.extend(crate::props::c17::loop_jobs(tier == Tier::Quick, false).into_iter().map(|mut s| {
+        s.name = s.name.replace("C17/", "C03/loop/");
+        s
+    }));
     out
 }
 
